@@ -265,6 +265,9 @@ func (ex *Exec) callerPos() string {
 }
 
 // jsonWriterTable runs T.MarshalJSON on a symbolic value and returns the member table.
+// jsonWriterResult: the bytes MarshalJSON returned in the last jsonWriterTable run (nil when it wrote nothing).
+var jsonWriterResult *Term
+
 func jsonWriterTable(w *World, tn string) (*Exec, *State, *StructVal, *jTable) {
 	ex := w.NewExec()
 	tbl := &jTable{}
@@ -272,7 +275,12 @@ func jsonWriterTable(w *World, tn string) (*Exec, *State, *StructVal, *jTable) {
 	st := newState()
 	T := w.Type(tn)
 	sv := ex.symValue(T, varNamer("x"), false).(*StructVal)
-	ex.Call(st, w.Method(tn, "MarshalJSON"), []Value{sv}, nil)
+	jsonWriterResult = nil
+	if r, ok := ex.Call(st, w.Method(tn, "MarshalJSON"), []Value{sv}, nil).(*TupleVal); ok {
+		if t, ok := r.V[0].(*Term); ok {
+			jsonWriterResult = t
+		}
+	}
 	return ex, st, sv, tbl
 }
 
@@ -621,6 +629,17 @@ func jsonRoundTripObligations(w *World, c *Check, P string) {
 		grp := P + "/" + tn + ".JSONRoundTrip"
 		guard(c, grp, func() {
 			ex, st, sv, tbl := jsonWriterTable(w, tn)
+			written := jsonWriterResult
+			var anyMember []*Term
+			for _, m := range tbl.Members {
+				anyMember = append(anyMember, m.Cond)
+			}
+			writerCommon := append([]*Term{ex.NoPanic()}, ex.assumes...)
+			if written != nil {
+				// the members only exist if MarshalJSON hands the document out: whenever a member is written, the result is not empty
+				c.Add(&Obligation{Name: grp + "/document-emitted-when-a-member-is-written", Group: grp + "/emit", Common: writerCommon, Hyps: []*Term{Or(anyMember...)},
+					Goal: Gt(BLen(written), IntLit(0)), Pos: ex.pos(w.Method(tn, "MarshalJSON").Pos()), Funcs: []string{"(" + tn + ").MarshalJSON"}, Replay: jsonReplay(tn, "", nil)})
+			}
 			doc := Var("doc", jvSort)
 			ex.assume(Neq(doc, jvNil))
 			var reads []string
